@@ -65,7 +65,7 @@ def _bound_names(fn):
     return out
 
 
-def normal_form(func, subs=(), keep_name=False, keep_param_names=False):
+def normal_form(func, subs=(), keep_name=False, keep_param_names=False, post_subs=()):
     """List of normalised top-level statements (strings) of the function body."""
     src = ast.unparse(func.node)
     tree = ast.parse(src)
@@ -92,13 +92,17 @@ def normal_form(func, subs=(), keep_name=False, keep_param_names=False):
         bound -= {x.arg for x in fn.args.args + fn.args.kwonlyargs}
     fn = _Renamer(bound).visit(fn)
     header = "def(%s)" % ast.unparse(fn.args)
-    return header, [ast.unparse(s) for s in fn.body]
+    body = [ast.unparse(s) for s in fn.body]
+    for pat, rep in post_subs:          # role-map entries over the alpha-renamed text (v0, v1, ...): independent of local names
+        body = [re.sub(pat, rep, t) for t in body]
+    return header, body
 
 
 class Pair:
     def __init__(self, name, a, b, subs=(), mode="equal", expected=(), props=(), why="", c=None, header=True,
-                 keep_params=False):
+                 keep_params=False, post_subs=()):
         self.keep_params = keep_params
+        self.post_subs = post_subs
         self.name, self.a, self.b, self.c = name, a, b, c
         self.subs, self.mode, self.expected, self.props, self.why, self.header = subs, mode, expected, props, why, header
 
@@ -106,8 +110,8 @@ class Pair:
 def compare_pair(ctx, pair, clause):
     p = ctx.p
     fa, fb = p.func(pair.a), p.func(pair.b)
-    ha, sa = normal_form(fa, pair.subs, keep_param_names=pair.keep_params)
-    hb, sb = normal_form(fb, pair.subs, keep_param_names=pair.keep_params)
+    ha, sa = normal_form(fa, pair.subs, keep_param_names=pair.keep_params, post_subs=pair.post_subs)
+    hb, sb = normal_form(fb, pair.subs, keep_param_names=pair.keep_params, post_subs=pair.post_subs)
     key = "R-TWIN|%s" % pair.name
     loc = fa.loc()
 
@@ -225,7 +229,7 @@ PAIRS = [
          subs=[(r"\(\{\}, \{\}\)", "{}")], props=("C14", "C02")),
     Pair("sgraph-po-vs-sp", SG + "yield_p_o_triples_of_target_nodes", SG + "yield_s_p_triples_of_target_nodes",
          subs=[(r"yield_p_o_triples_of_an_s", "yield_triples_of_a_node"), (r"yield_s_p_triples_of_an_o", "yield_triples_of_a_node"),
-               (r"a_triple\[2\]", "a_triple[END]"), (r"a_triple\[0\]", "a_triple[END]")], props=("C14", "C15", "C19")),
+               (r"\b(\w+)\[2\]", r"\1[END]"), (r"\b(\w+)\[0\]", r"\1[END]")], props=("C14", "C15", "C19")),
     Pair("selectors-direct-vs-inverse", SEL + "_yield_relevant_direct_triples", SEL + "_yield_relevant_inverse_triples",
          subs=[(r"yield_p_o_triples_of_target_nodes", "yield_triples_of_target_nodes"),
                (r"yield_s_p_triples_of_target_nodes", "yield_triples_of_target_nodes")], props=("C14", "C15")),
@@ -252,9 +256,8 @@ PAIRS = [
     Pair("endpoint-dispatch-po-vs-sp", ESG + "yield_p_o_triples_of_an_s", ESG + "yield_s_p_triples_of_an_o",
          subs=[(r"p_o_triples_of_an_s", "triples_of_a_node"), (r"s_p_triples_of_an_o", "triples_of_a_node")], props=("C15",)),
     Pair("endpoint-query-po-vs-sp", "shexer.io.sparql.query:query_endpoint_po_of_an_s", "shexer.io.sparql.query:query_endpoint_sp_of_an_o",
-         subs=[(r"\bo_id\b", "x_id"), (r"\bs_id\b", "x_id"), (r"\bo_value\b", "x_value"), (r"\bs_value\b", "x_value"),
-               (r"\(x_value, p_value\)", "(PAIR)"), (r"\(p_value, x_value\)", "(PAIR)")], props=("C15",), header=False,
-         keep_params=True),
+         subs=[(r"\bo_id\b", "x_id"), (r"\bs_id\b", "x_id")], post_subs=[(r"\(\((v\d+), (v\d+)\)\)", "((PAIR))")],
+         props=("C15",), header=False, keep_params=True),
     Pair("min-iri-and-examples-union", CP + "_annotate_min_iris", CP + "_annotate_shape_examples", mode="union",
          c=CP + "_annotate_shape_examples_and_min_iris", props=("C17",)),
     Pair("yielder-nt-vs-tsv", TYF + "_yielder_for_tsv_spo", TYF + "_yielder_for_turtle_iter",
